@@ -89,6 +89,12 @@ def thaw(x):
 # step tuples:
 #   ('delay', d)                 yield d
 #   ('delayw', d, emit)          yield (d, <side effects>), emit in EMIT forms
+#   ('delayo', d, edit)          yield (d, outbox): the process keeps ONE list object and yields it on every such
+#                                step; before the yield the list is edited in place: 'keep' untouched (initially
+#                                the shared empty list) | 'clear' | 'append' one new event at now | 'replace'
+#                                (remove() the process's earlier events one by one, append one new event)
+#   retform 'box'                the generator returns that same list object (own events removed, one return
+#                                event appended);  hooks 'box': the event hook returns that list object likewise
 #   ('await', expr, build)       yield <future>; expr = ('f', i) | ('any', e, e[, e]) | ('all', e, e[, e])
 #                                build = 'late' (combinator built at the yield) | 'pre' (built before run())
 #   ('sub', (steps...))          yield from <sub generator>
@@ -227,6 +233,9 @@ class RealCtx:
         self.prog = prog
         self.start_events = {}
         self.hooker = Hooker("H", self)
+        self.box = defaultdict(list)  # p -> the one outbox list object of the process
+        self.own = defaultdict(list)  # p -> [(eid, Event)] harness events currently in the outbox
+        self.yielded = set()
         self.log = []
         self.futs = [SimFuture() for _ in range(NF)]
         self.prebuilt = {}
@@ -289,7 +298,18 @@ class RealCtx:
             return self.mk(("ret", p, 0), now, self.sink)
         if form == "two":
             return [self.mk(("ret", p, 0), now, self.sink), self.mk(("ret", p, 1), now + 1, self.sink)]
+        if form == "box":
+            return self.reuse_box(p, self.mk(("ret", p, 0), now, self.sink))
         raise AssertionError(form)
+
+    def reuse_box(self, p, ev):
+        """The same list object the process yielded earlier, now holding only ``ev``."""
+        box = self.box[p]
+        for _eid, old in self.own[p]:
+            box.remove(old)
+        self.own[p].clear()
+        box.append(ev)
+        return box
 
     # -- hooks
     def hooks_for(self, p):
@@ -299,7 +319,8 @@ class RealCtx:
 
         def event_hook(t):
             self.emit(("hook", p, "event", self.now(), t.nanoseconds))
-            return self.mk(("hk", p), t.nanoseconds, self.sink)
+            ev = self.mk(("hk", p), t.nanoseconds, self.sink)
+            return self.reuse_box(p, ev) if self.prog[0][p][2] == "box" else ev
 
         return [count_hook, event_hook]
 
@@ -323,6 +344,28 @@ class RealCtx:
                 evs = self.make_emit(p, pth, st[2], now)
                 self.emit(("yield", p, pth, now, st))
                 v = yield (st[1], evs)
+                self.emit(("resume", p, pth, self.now(), norm(v)))
+            elif k == "delayo":
+                now = self.now()
+                box, own, edit = self.box[p], self.own[p], st[2]
+                if edit == "clear":
+                    box.clear()
+                    own.clear()
+                elif edit == "replace":
+                    for _eid, old in own:
+                        box.remove(old)
+                    own.clear()
+                if edit in ("append", "replace"):
+                    eid = ("se", p, pth, 0)
+                    ev = self.mk(eid, now, self.sink)
+                    box.append(ev)
+                    own.append((eid, ev))
+                for eid, _ev in own:
+                    if eid in self.yielded:
+                        self.emit(("reyield", eid, now))
+                    self.yielded.add(eid)
+                self.emit(("yield", p, pth, now, st))
+                v = yield (st[1], box)
                 self.emit(("resume", p, pth, self.now(), norm(v)))
             elif k == "await":
                 fut = self.build(st[1]) if st[2] == "late" else self.prebuilt[(p, pth)]
@@ -454,6 +497,9 @@ class Ref:
         self.ps = {}
         self.hooks = {}  # p -> hook names currently registered on the starting event
         self.finished = set()
+        self.own = defaultdict(list)  # p -> [(eid, time)] events currently in the process's outbox
+        self.eseq = {}  # eid -> creation index
+        self.yielded = set()
 
     # -- queue: (time, creation index)
     def push(self, t, item):
@@ -564,6 +610,26 @@ class Ref:
                 self.log.append(("yield", p, pth, self.now, st))
                 self.push(self.now + dns(st[1]), ("cont", p, pth, None))
                 return
+            if k == "delayo":
+                own, edit = self.own[p], st[2]
+                if edit in ("clear", "replace"):
+                    own.clear()
+                if edit in ("append", "replace"):
+                    eid = ("se", p, pth, 0)
+                    self.log.append(("create", eid, self.now))
+                    self.eseq[eid] = self.seq
+                    self.seq += 1
+                    own.append((eid, self.now))
+                for eid, t in own:
+                    # every event in the yielded list is scheduled at the moment of the yield; an event object
+                    # yielded again keeps its creation index (and is skipped by the engine if already past)
+                    if eid in self.yielded:
+                        self.log.append(("reyield", eid, self.now))
+                    self.yielded.add(eid)
+                    heapq.heappush(self.q, (t, self.eseq[eid], ("sink", eid)))
+                self.log.append(("yield", p, pth, self.now, st))
+                self.push(self.now + dns(st[1]), ("cont", p, pth, None))
+                return
             if k == "await":
                 f = self.build(st[1]) if st[2] == "late" else self.prebuilt[(p, pth)]
                 self.log.append(("yield", p, pth, self.now, st))
@@ -588,7 +654,7 @@ class Ref:
         (_st, _style, _hooks, _steps, ret) = self.prog[0][p]
         self.log.append(("finish", p, now))
         self.finished.add(p)
-        if ret == "one":
+        if ret in ("one", "box"):
             self.mk(("ret", p, 0), now, ("sink", ("ret", p, 0)))
         elif ret == "two":
             self.mk(("ret", p, 0), now, ("sink", ("ret", p, 0)))
@@ -631,6 +697,8 @@ class Ref:
                 self.mk(("ha", p), t_att, ("attach", ("ha", p), p))
         while self.q:
             t, _seq, item = heapq.heappop(self.q)
+            if t < self.now:
+                continue  # an event already in the past when it was scheduled is not live (C01)
             self.now = t
             kind = item[0]
             if kind == "start":
@@ -739,7 +807,7 @@ def trace_oracle(prog, log):
                     ytick, y = pending
                     st = y[4]
                     # the process was still suspended at the end of the run
-                    if st[0] in ("delay", "delayw"):
+                    if st[0] in ("delay", "delayw", "delayo"):
                         add(f"ProcessContinuation/never-resumed/{form_of(st)}",
                             f"process {p} yielded delay {st[1]!r}s at {y[3]}ns (step {y[2]}) and was never resumed")
                     else:
@@ -763,7 +831,7 @@ def trace_oracle(prog, log):
             pending = None
             st = y[4]
             ty, tr, val = y[3], e[3], e[4]
-            if st[0] in ("delay", "delayw"):
+            if st[0] in ("delay", "delayw", "delayo"):
                 exp_t = ty + dns(st[1])
                 if tr != exp_t:
                     add(f"ProcessContinuation/resume-time/{form_of(st)}",
@@ -817,6 +885,8 @@ def trace_oracle(prog, log):
             p, pth = eid[1], eid[2]
             st = step_at(procs[p][3], pth)
             frm = st[2] if isinstance(st[2], str) else "res"
+            if st[0] == "delayo":
+                frm = "outbox-" + frm
             return "ProcessContinuation", "side-effect", frm
         if eid[0] == "ret":
             return "ProcessContinuation", "return-events", procs[eid[1]][4]
@@ -826,9 +896,14 @@ def trace_oracle(prog, log):
             return "Simulation", "pre-run-event", "hook-attacher"
         return "Simulation", "pre-run-event", "resolver"
 
+    reyielded = {e[1] for e in log if e[0] == "reyield"}
     for eid, t in created.items():
         comp, what, shape = ev_class(eid)
         got = deliv.get(eid, [])
+        if eid in reyielded and got:
+            # the process yielded this very Event object on more than one step: how often it is then
+            # delivered is not defined by the statement; only "at its instant" is checked
+            got = sorted(set(got))
         if len(got) == 0:
             add(f"{comp}/{what}-lost/{shape}", f"event {eid} created for {t}ns was never delivered")
         elif len(got) > 1:
@@ -910,7 +985,7 @@ def flat_steps(steps):
 
 
 def flat_yields(steps):
-    return [s for s in flat_steps(steps) if s[0] in ("delay", "delayw", "await")]
+    return [s for s in flat_steps(steps) if s[0] in ("delay", "delayw", "delayo", "await")]
 
 
 def nontrivial(log):
@@ -919,12 +994,14 @@ def nontrivial(log):
     non-zero delay that truncates to 0 ns, or (d) had a same-instant tie at a resume: between a process's
     yield and its resume another agent (another process, the resolver, a sink delivery) acted at the
     instant of the resume, or (e) attached a completion hook while the process was in flight, or
-    (f) resolved a future with a falsy non-None value."""
+    (f) resolved a future with a falsy non-None value, or (g) yielded the same side-effect list object on
+    two steps."""
     seen = set()
     bt = {}
     acts = []  # (tick, time, agent)
     ytick = {}
     inflight = set()
+    boxed = set()
     for tick, e in enumerate(log):
         k = e[0]
         if k == "attach" and e[1] in inflight:
@@ -947,6 +1024,10 @@ def nontrivial(log):
             st = e[4]
             if st[0] in ("delay", "delayw") and st[1] != 0 and dns(st[1]) == 0:
                 return True
+            if st[0] == "delayo":
+                if e[1] in boxed:
+                    return True  # (g) the same list object yielded again
+                boxed.add(e[1])
             if st[0] == "await" and any(b in seen for b in expr_bases(st[1])):
                 return True
             ytick[e[1]] = tick
@@ -1200,6 +1281,24 @@ def _family(name, tier):
                                        "styles entity, once"],
                       "resolver_times_ns": [0, 1, 2], "resolver_actions<=": 2}
 
+    if name == "outbox":
+        # side effects handed over through ONE reused list object (edited in place between yields), the same
+        # list object as return value / hook result
+        alpha = [("delayo", d, ed) for d in (D0, D1) for ed in ("keep", "clear", "append", "replace")] + \
+                [("delay", D1), ("await", F0, "late")]
+        if not q:
+            alpha += [("delayo", DHALF, "append"), ("delayw", D0, "two"), ("sub", (("delayo", D1, "replace"),))]
+        A = []
+        for steps in seqs(alpha, 3 if q else 4):
+            for ret, hooks in (("box", "ctor"), ("one", "box"), ("box", "none")):
+                A.append(((0, "entity", hooks, steps, ret),))
+        B = [((), (), "P", "auto"), ((), (), "P", "end"), ((), (), "P", "ctl"),
+             (((0, 0),), (), "P", "auto"), (((1, 0),), (), "R", "end"), (((2, 0),), (), "P", "auto")]
+        return A, B, {"processes": 1, "steps<=": 3 if q else 4, "alphabet": len(alpha),
+                      "outbox edits": ["keep", "clear", "append", "replace"],
+                      "return/hook configs": ["return outbox + ctor hooks", "hook returns outbox", "return outbox"],
+                      "resolver_actions<=": 1}
+
     if name == "falsy-values":
         # futures resolved with falsy values (0, False, '', [], None) for direct awaits, yield from, and as
         # elements of any_of / all_of results
@@ -1227,7 +1326,7 @@ def _family(name, tier):
 
 
 FAMILIES = ["delays", "await", "await-half", "await-big", "combinators", "combinators-seq", "two-procs",
-            "hooks-late", "falsy-values"]
+            "hooks-late", "falsy-values", "outbox"]
 
 
 def _work(job):
@@ -1323,7 +1422,8 @@ def main(tier, seed, only=None):
                     "future twice, yielded a non-zero delay truncating to 0 ns, or had a same-instant tie at a resume "
                     "(another process, the resolver or a sink delivery acted at the resume instant between the "
                     "yield and the resume), attached a completion hook while the process was in flight, or resolved "
-                    "a future with a falsy non-None value; states = distinct observation logs"),
+                    "a future with a falsy non-None value, or yielded the same side-effect list object on two steps; "
+                    "states = distinct observation logs"),
               assumptions=["harness generators observe resume instants/values via Entity.now and the value of the "
                            "yield expression (public contract)",
                            "same-instant order of resolve calls is taken as observed (C01 owns event ordering)",
